@@ -615,15 +615,23 @@ def _get_specific_tags(
     with open(xml_path, "rb") as f:
         it = ET.iterparse(f, events=["start", "end"])
         dict_tags = {}
+        # Wanted elements whose end tag has not been read yet. An element is only
+        # complete at its "end" event: the parser reads the file in chunks, so at the
+        # "start" event the children that lie in the next chunk are not there yet.
+        pending: list[ET.Element] = []
         for event, element in it:
             if event == "start" and element.tag in tag_names:
-                dict_tags[element.tag] = deepcopy(element)
                 tag_names.remove(element.tag)
-                if not tag_names:  # All the tags have been found.
-                    break
+                pending.append(element)
 
             if event == "end":
-                element.clear()
+                if pending and element is pending[-1]:
+                    dict_tags[element.tag] = deepcopy(element)
+                    pending.pop()
+                    if not tag_names and not pending:  # All the tags have been found.
+                        break
+                if not pending:  # Keep the content of a wanted element until it is copied.
+                    element.clear()
 
         if tag_names:
             warnings.warn(
